@@ -234,7 +234,7 @@ fn judge(variant: usize, forest: &[B], w: &mut WorkerCtx)
 					if !expect_reject
 					{
 						ok = false;
-						w.result.violation(&format!("rejected-legal-body:E{}:{}", codes[0], VARIANTS[variant]), size, &desc, || {
+						w.result.violation(&format!("rejected-legal-body:E{}:{}", codes.first().copied().unwrap_or(0), VARIANTS[variant]), size, &desc, || {
 							format!("the model finds every goto forward/outward and every label unique, but the compiler reports {codes:?}\n{text}")
 						});
 					}
